@@ -244,7 +244,7 @@ Lemma J_run ops : forall log s b, J log s b -> exists b', J (log ++ flog s ops) 
 Proof.
   induction ops as [|o r IH]; intros log s b HJ; cbn [flog frun].
   - rewrite app_nil_r. exists b. exact HJ.
-  - destruct o as [sc name d| |src fire]; cbn [fstep].
+  - destruct o as [sc name d| |src fire|sc name d src]; cbn [fstep].
     + destruct (create s sc name d) as [s' id] eqn:C. cbn [fst].
       pose proof (J_create log s b sc name d HJ) as HJ'. rewrite C in HJ'. cbn [fst snd] in HJ'.
       destruct (IH _ _ _ HJ') as [b' Hb']. exists b'. rewrite <- app_assoc in Hb'. exact Hb'.
@@ -254,6 +254,14 @@ Proof.
       * eapply J_same_ids; [exact HJ|reflexivity|reflexivity|].
         intros k. rewrite rid_update. reflexivity.
       * eapply J_same_ids; [exact HJ|reflexivity|reflexivity|reflexivity].
+    + destruct (create s sc name d) as [s' id] eqn:C. cbn [fst].
+      pose proof (J_create log s b sc name d HJ) as HJ'. rewrite C in HJ'. cbn [fst snd] in HJ'.
+      assert (J (log ++ [(f_gen s, key_of sc name d, id)])
+                (update_peer_counts {| f_reg := f_reg s'; f_goals := f_goals s'; f_next := f_next s';
+                                       f_gen := f_gen s'; f_peers := f_peers s'; f_src := src |}) b) as HJ2.
+      { eapply J_same_ids; [exact HJ'|reflexivity|reflexivity|].
+        intros k. rewrite rid_update. reflexivity. }
+      destruct (IH _ _ _ HJ2) as [b' Hb']. exists b'. rewrite <- app_assoc in Hb'. exact Hb'.
 Qed.
 
 (* Every history of creations, clears and membership changes: two creations returned the same
@@ -655,13 +663,16 @@ Qed.
 
 Lemma G_step s o : G s -> G (fst (fstep s o)).
 Proof.
-  intros HG. destruct o as [sc name d| |src fire]; cbn [fstep].
+  intros HG. destruct o as [sc name d| |src fire|sc name d src]; cbn [fstep].
   - destruct (create s sc name d) as [s' id] eqn:C. cbn [fst].
     pose proof (G_create s sc name d HG) as H. rewrite C in H. exact H.
   - apply G_clear. exact HG.
   - cbn [fst]. destruct fire.
     + apply G_update; cbn [f_peers f_reg f_goals]; [apply HG|apply (G_P s HG)].
     + destruct HG as [Hp [G1 G2]]. unfold G. cbn [f_peers f_goals f_reg]. auto.
+  - destruct (create s sc name d) as [s' id] eqn:C. cbn [fst].
+    pose proof (G_create s sc name d HG) as H. rewrite C in H. cbn [fst] in H.
+    apply G_update; cbn [f_peers f_reg f_goals]; [apply H|apply (G_P s' H)].
 Qed.
 
 Theorem G_run ops : forall s, G s -> G (frun s ops).
@@ -710,6 +721,14 @@ Proof.
     - cbn [fstep fst frun]. apply peers_after_update; [reflexivity|exact Hn].
     - apply IH. }
   apply H.
+Qed.
+
+(* a membership change delivered while a sampler is being created is not lost: the count is the new one *)
+Theorem peers_current_after_racing_creation s sc name d n :
+  0 < n -> f_peers (fst (fstep s (FCreateRace sc name d (Some n)))) = n.
+Proof.
+  intros Hn. cbn [fstep]. destruct (create s sc name d) as [s1 id]. cbn [fst].
+  apply peers_after_update; [reflexivity|exact Hn].
 Qed.
 
 Theorem peers_current_after_creation s sc name d n :
